@@ -22,29 +22,37 @@ ExplicitPolicy(name) == CASE name = NFoo -> "int" [] name = <<"r">> -> "readonly
 \* the effective wildcard table: prefix -> policy.  Declarations of the class itself override inherited
 \* ones for the same prefix; the class default is the wildcard with the empty prefix.
 BaseDefault(cfg) == IF cfg.base = "plain" THEN "python" ELSE "disallow"
-Wild(cfg) ==
+\* dyn: wildcards added to the class at run time with add_class_trait (same prefixes, same policies)
+Wild(cfg, dyn) ==
   [p \in {<<>>} \cup (IF cfg.wf # "absent" THEN {<<"f">>} ELSE {})
                \cup (IF cfg.wfo # "absent" THEN {<<"f", "o">>} ELSE {})
+               \cup dyn
                \cup (IF cfg.wu # "absent" \/ cfg.base = "private" THEN {<<"_">>} ELSE {})
    |-> CASE p = <<>> -> BaseDefault(cfg)
          [] p = <<"f">> -> "int"
          [] p = <<"f", "o">> -> "str"
          [] p = <<"_">> -> IF cfg.wu # "absent" THEN "int" ELSE "any"]     \* HasPrivateTraits: __ = Any(private)
-LongestPrefix(cfg, name) ==
-  CHOOSE p \in DOMAIN Wild(cfg) : HasPrefix(name, p) /\ \A q \in DOMAIN Wild(cfg) : HasPrefix(name, q) => Len(q) <= Len(p)
+LongestPrefix(cfg, dyn, name) ==
+  CHOOSE p \in DOMAIN Wild(cfg, dyn) : HasPrefix(name, p) /\ \A q \in DOMAIN Wild(cfg, dyn) : HasPrefix(name, q) => Len(q) <= Len(p)
+WildPolicy(cfg, dyn, name) == Wild(cfg, dyn)[LongestPrefix(cfg, dyn, name)]
+PrefixOf(arg) == IF arg = "f" THEN <<"f">> ELSE <<"f", "o">>
+Declared(cfg, p) == IF p = <<"f">> THEN cfg.wf # "absent" ELSE cfg.wfo # "absent"
 
-\* ---- the statement: instance trait > class trait (own or inherited) > longest wildcard > class default
-Governing(cfg, itrait, name) ==
-  IF itrait # "none" THEN itrait
+\* ---- the statement: instance trait > class trait (own or inherited) > longest wildcard > class default.
+\* state of the name: [itrait, stored, cpol, dyn]; cpol: the policy resolved through a wildcard at the first access and kept
+\* under the exact name in the class ("none": not yet) - a wildcard added later does not re-govern such a name
+Governing(cfg, st, name) ==
+  IF st.itrait # "none" THEN st.itrait
   ELSE IF cfg.explicit /\ ExplicitPolicy(name) # "none" THEN ExplicitPolicy(name)
   ELSE IF IsDunder(name) THEN "dunder"           \* __x__: always settable, readable once set (documented)
-  ELSE Wild(cfg)[LongestPrefix(cfg, name)]
+  ELSE IF st.cpol # "none" THEN st.cpol
+  ELSE WildPolicy(cfg, st.dyn, name)
 \* A dunder name that has been written or deleted once is from then on an ordinary untyped attribute
 \* (the any_trait chosen by __prefix_trait__(is_set=True) is kept under the name)
 Effective(cfg, st, name) ==
-  LET g == Governing(cfg, st.itrait, name) IN IF g = "dunder" /\ st.cached THEN "any" ELSE g
-HasExactTrait(cfg, itrait, name, cached) ==      \* what obj._trait(name, 0) finds (incl. the class-level cache)
-  itrait # "none" \/ (cfg.explicit /\ ExplicitPolicy(name) # "none") \/ cached
+  LET g == Governing(cfg, st, name) IN IF g = "dunder" /\ st.cpol # "none" THEN "any" ELSE g
+HasExactTrait(cfg, st, name) ==      \* what obj._trait(name, 0) finds (incl. the class-level cache)
+  st.itrait # "none" \/ (cfg.explicit /\ ExplicitPolicy(name) # "none") \/ st.cpol # "none"
 
 \* ---- values: "i5" (the int 5), "s" (a str); defaults materialised by a read: d_int (0), d_str (""),
 \* d_ro (Undefined), d_any (None); "c": the Constant's value
@@ -52,28 +60,36 @@ DefaultOf(pol) == CASE pol = "int" -> "d_int" [] pol = "str" -> "d_str" [] pol =
                     [] pol = "any" -> "d_any" [] pol = "constant" -> "c" [] OTHER -> "none"
 Accepts(pol, v) == CASE pol = "int" -> v = "i5" [] pol = "str" -> v = "s" [] OTHER -> TRUE
 
-\* state of the name: [itrait, stored, cached]; outcome: [st, res]  (res: a value token, "ok", or an exception class)
+\* outcome: [st, res]  (res: a value token, "ok", or an exception class)
 Out(st, res) == [st |-> st, res |-> res]
-Resolve(cfg, st, name) ==   \* any access through a wildcard caches the resolved trait under the name
-  [st EXCEPT !.cached = @ \/ (st.itrait = "none" /\ ~(cfg.explicit /\ ExplicitPolicy(name) # "none") /\ ~IsDunder(name))]
+ThroughWildcard(cfg, st, name) == st.itrait = "none" /\ ~(cfg.explicit /\ ExplicitPolicy(name) # "none") /\ ~IsDunder(name)
+Resolve(cfg, st, name) ==   \* any access through a wildcard keeps the resolved trait under the name
+  IF ThroughWildcard(cfg, st, name) /\ st.cpol = "none" THEN [st EXCEPT !.cpol = WildPolicy(cfg, st.dyn, name)] ELSE st
+\* cfg.admit: the class has a trait_added listener that answers the first resolution of an undeclared name by
+\* add_trait(name, Int()): the pending access itself is already governed by the new instance trait
+Admitted(cfg, st, name) ==
+  IF cfg.admit /\ ThroughWildcard(cfg, st, name) /\ st.cpol = "none"
+  THEN [Resolve(cfg, st, name) EXCEPT !.itrait = "int"] ELSE st
 
-Get(cfg, st, name) ==
-  LET pol == Effective(cfg, st, name) IN
+Get(cfg, st0, name) ==
+  LET st == Admitted(cfg, st0, name)  pol == Effective(cfg, st, name) IN
   IF st.stored # "unset" THEN Out(st, st.stored)            \* the instance dictionary is consulted first
   ELSE CASE pol \in {"int", "str", "any", "readonly"} ->    \* the default is materialised by the read
               Out([Resolve(cfg, st, name) EXCEPT !.stored = DefaultOf(pol)], DefaultOf(pol))
          [] pol = "constant" -> Out(Resolve(cfg, st, name), "c")
          [] pol = "property" -> Out(st, "p")                   \* a getter-only Property: computed, never stored
          [] pol \in {"event", "disallow", "python", "dunder"} -> Out(Resolve(cfg, st, name), "AttributeError")
-Set(cfg, st, name, v) ==
-  LET pol == Effective(cfg, st, name)  r == IF pol = "dunder" THEN [st EXCEPT !.cached = TRUE] ELSE Resolve(cfg, st, name) IN
+Set(cfg, st0, name, v) ==
+  LET st == Admitted(cfg, st0, name)  pol == Effective(cfg, st, name)
+      r == IF pol = "dunder" THEN [st EXCEPT !.cpol = "any"] ELSE Resolve(cfg, st, name) IN
   CASE pol \in {"int", "str", "any", "python", "dunder"} ->
          IF Accepts(pol, v) THEN Out([r EXCEPT !.stored = v], "ok") ELSE Out(r, "TraitError")
     [] pol = "readonly" -> IF st.stored \in {"unset", "d_ro"} THEN Out([r EXCEPT !.stored = v], "ok") ELSE Out(r, "TraitError")
     [] pol \in {"constant", "disallow", "property"} -> Out(r, "TraitError")
     [] pol = "event" -> Out(r, "ok")                             \* write-only: nothing is stored
-Del(cfg, st, name) ==
-  LET pol == Effective(cfg, st, name)  r == IF pol = "dunder" THEN [st EXCEPT !.cached = TRUE] ELSE Resolve(cfg, st, name) IN
+Del(cfg, st0, name) ==
+  LET st == Admitted(cfg, st0, name)  pol == Effective(cfg, st, name)
+      r == IF pol = "dunder" THEN [st EXCEPT !.cpol = "any"] ELSE Resolve(cfg, st, name) IN
   CASE pol \in {"int", "str", "any", "dunder", "event"} -> Out([r EXCEPT !.stored = IF pol = "event" THEN @ ELSE "unset"], "ok")
     [] pol = "python" -> IF st.stored = "unset" THEN Out(r, "AttributeError") ELSE Out([r EXCEPT !.stored = "unset"], "ok")
     [] pol \in {"readonly", "constant", "disallow", "property"} -> Out(r, "TraitError")
@@ -82,7 +98,7 @@ AddTrait(cfg, st, name, pol) == Out([st EXCEPT !.itrait = pol], "ok")
 \* exactly this name exists, the stored value
 RemoveTrait(cfg, st, name) ==
   Out([st EXCEPT !.itrait = "none",
-                 !.stored = IF HasExactTrait(cfg, st.itrait, name, st.cached) THEN "unset" ELSE @],
+                 !.stored = IF HasExactTrait(cfg, st, name) THEN "unset" ELSE @],
       IF st.itrait # "none" THEN "true" ELSE "false")
 
 Apply(op, cfg, st, name, arg) ==
@@ -91,4 +107,7 @@ Apply(op, cfg, st, name, arg) ==
     [] op = "del" -> Del(cfg, st, name)
     [] op = "add_trait" -> AddTrait(cfg, st, name, arg)
     [] op = "remove_trait" -> RemoveTrait(cfg, st, name)
+    \* type(obj).add_class_trait("f_" | "fo_", ...) at run time (only for a prefix the classes do not declare)
+    [] op = "add_wild" -> Out([st EXCEPT !.dyn = @ \cup {PrefixOf(arg)}], "ok")
+St0 == [itrait |-> "none", stored |-> "unset", cpol |-> "none", dyn |-> {}]
 =============================================================================
